@@ -1,11 +1,15 @@
 /-
 C05 — computed Wasserstein distances behave like an optimal-transport cost.
 
-Model: `DarsiaModel.Transport` (discrete Beckmann problem on the finite-volume model of C06/C07).  The Euclidean norm
-enters only through absolute homogeneity and the triangle inequality (`IsSeminorm N`), so every statement holds for the
-Euclidean norm; all shapes, voxel sizes, quadrature rules with non-negative weights, cell weights, fluxes.
-What is proved is about the cost functional, the constraint and the minimum (hence about every converged result and
-every returned feasible flux); that the iterative solvers reach the minimum is NOT proved (observed by the oracle).
+Model: `DarsiaModel.Transport` (discrete Beckmann problem on the finite-volume model of C06/C07).  Two layers:
+* ℚ-layer (`cost`, `IsSeminorm N` with a RATIONAL-valued `N`, rational quadrature nodes): the algebra of the cost functional and of
+  the constraint, and statements about a minimum `IsMin` — whose existence is proved only for identical distributions
+  (`min_zero_of_equal`); `min_symm`, `min_smul`, `min_weight_smul`, `ge_min` are conditional on a minimum being given.
+  The Euclidean norm is not rational-valued, so this layer covers it only on single-component vectors (`normAxis`, thin grids).
+* ℝ-layer (`costR`, `IsSeminormR`, real nodes; instance `euclid` = the norm the code uses): `first_moment_bound*`,
+  `potential_lower_bound` — these are the statements that hold for the Euclidean cost the code computes, all three L1 modes.
+What is proved is about the cost functional, the constraint and bounds valid for EVERY mass-conserving flux; that the iterative
+solvers return the cost of a mass-conserving flux, reach a minimum, or are equivariant is NOT proved (observed by the oracle).
 -/
 import DarsiaModel.Transport
 import DarsiaGen.TransportDispatch
@@ -192,16 +196,18 @@ theorem thinB_sound (shape : List Nat) (a : Nat) (h : thinB shape a = true) : Th
     beq_iff_eq] at h
   exact ⟨h.1, fun b hb hne => (h.2 b hb).resolve_left hne⟩
 
-/-- the unified front-end reaches a back-end for each documented method (any capitalisation), distinct methods reach
-distinct back-ends, anything else is rejected with `NotImplementedError` (table re-tabulated from the running code) -/
+/-- the unified front-end, on the NINE spellings that are tabulated from the running code (three documented names, one other
+capitalisation of each, three foreign strings): documented methods reach distinct back-ends, the foreign strings are rejected
+with `NotImplementedError`.  (A finite sample of the string argument, not a statement about all strings.) -/
 theorem dispatch_total :
     Gen.dispatch .newton = .ok .newton ∧ Gen.dispatch .bregman = .ok .bregman ∧ Gen.dispatch .cv2emd = .ok .emd ∧
     Gen.dispatch .newtonCap = .ok .newton ∧ Gen.dispatch .bregmanUpper = .ok .bregman ∧
     Gen.dispatch .cv2emdUpper = .ok .emd ∧
     (∀ m ∈ [Gen.Method.sinkhorn, .emd, .empty], Gen.dispatch m = .error .notImpl) := by decide
 
-/-- OpenCV back-end, single-cell move: (result)² = (mass)² · (Euclidean distance in physical units)², with
-mass = value · cell volume; symmetric under reversing the move and quadratic (result linear) in the value. -/
+/-- OpenCV back-end, single-cell move, rescaling formula only (`cv2.EMD`, the normalisation and the float32 signature are not
+modelled): conjunct 1 unfolds the definition (result² = mass² · distance², mass = value · cell volume); conjuncts 2–3: symmetric
+under reversing the move, quadratic (result linear) in the value. -/
 theorem emd_single_move (value dy dx : Rat) (drow dcol : Int) (s : Rat) :
     emdSingleSq value dy dx drow dcol = (value * dy * dx) ^ 2 * ((dcol * dx) ^ 2 + (drow * dy) ^ 2) ∧
     emdSingleSq value dy dx (-drow) (-dcol) = emdSingleSq value dy dx drow dcol ∧
